@@ -355,6 +355,7 @@ def run(run_, ctx):
     run_.explanation = (
         "Every `impl Schema` constant of postcard-schema (58 in the std configuration) is read as a resolved HIR tree and compared with the oracle row for its self type; "
         "unknown impls fail closed. A corpus crate of derived types is compiled against /repo's derive and analysed by the same driver: per type the serde_derive-generated "
-        "Serialize body (MIR: call kind, index, names, field value types per arm) is compared with the postcard Schema derive's constant tree (HIR).")
+        "Serialize body (MIR: call kind, index, names, field value types per arm) is compared with the postcard Schema derive's constant tree (HIR); "
+        "the same comparison is made for the types of postcard-schema itself that are both serialized and described by a Schema (Key).")
     run_.trusted += ["serde's Serialize impls for std/heapless/uuid/chrono/nalgebra as documented", "serde_derive"]
     run_.not_analysed += ["builtins_alloc.rs is only compiled without use-std (configuration C, thorough tier)"]
